@@ -75,7 +75,7 @@ def main():
     if qual.startswith('SgzCropper.'):
         print(json.dumps(replay_crop(model, shape, rate, b), default=str))
         return
-    if method == 'make_header':
+    if method in ('make_header', 'numpy_producer'):
         print(json.dumps(replay_writer(model, rate, b, two_d, var), default=str))
         return
     known_args = {'read_inline': ['il_id'], 'read_crossline': ['xl_id'], 'read_zslice': ['zslice_id'], 'read_volume': [],
@@ -279,7 +279,7 @@ def replay_writer(model, rate, b, two_d, var):
     shape = [ival(model, 'n_ilines'), ival(model, 'n_xlines'), ival(model, 'n_samples')]
     if any(x is None for x in shape):
         return {'reproduced': None, 'detail': 'model lacks a shape'}
-    shape = [min(max(x, 2), 40) for x in shape]          # a small cube with the same residues is enough for header words
+    shape = [min(max(x, 2), 40 if k < 2 else 3 * b[2] + 3) for k, x in enumerate(shape)]     # small cube, same kind of residues
     il, xl = axis_from(model, 'ilines', shape[0]), axis_from(model, 'xlines', shape[1])
     t0, dt = ival(model, 't0_ms') or 0, ival(model, 'interval_us') or 4000
     if any(abs(v) >= 2 ** 31 for v in il + xl):
@@ -306,6 +306,13 @@ def replay_writer(model, rate, b, two_d, var):
         for k, v in (('nZ', shape[2]), ('nX', shape[1]), ('nI', shape[0]), ('il0', il[0]), ('xl0', xl[0]), ('il_step', il[1] - il[0]), ('xl_step', xl[1] - xl[0]), ('z0', t0), ('dz', dt)):
             if h[k] != v:
                 probs.append(f'header word {k} = {h[k]}, source says {v}')
+        import hashlib
+        if bytes(buf[960:980]) != hashlib.sha1(cube.tobytes()).digest():
+            probs.append('stored hash (bytes 960..980) is not the SHA-1 of the source samples in trace order')
+        dec = S.decode(buf)
+        exp = S.expected_readback(cube, rate, tuple(b))
+        if dec['volume'].shape != exp.shape or not np.array_equal(dec['volume'], exp):
+            probs.append('spec decode of the written file differs from the ZFP fixed-rate image of the edge-replicated source')
         with SgzReader(fn) as r:
             if list(r.ilines) != il or list(r.xlines) != xl:
                 probs.append(f'reader axes {list(r.ilines)[:4]}.. / {list(r.xlines)[:4]}.. differ from the source {il[:4]}.. / {xl[:4]}..')
